@@ -181,6 +181,18 @@ func e2eExec(c *e2eCase, work string, tr *vTrace, logLines bool) (*e2eResult, ma
 	var pauseMu sync.Mutex
 	pauseStarted, pausedNow := false, false
 	pData, pKeep, dataAfter := 0, 0, 0
+	// steering goroutines that outlive the transfer (pause cycles) record nothing once it is over
+	var overMu sync.Mutex
+	over := false
+	emitLive := func(ev map[string]any, do func()) bool {
+		overMu.Lock()
+		defer overMu.Unlock()
+		if over {
+			return false
+		}
+		tr.Emit(ev, do)
+		return true
+	}
 	hooks := &e2eHooks{chain: e2eChain, uid: e2eChainUID}
 	if c.WatchdogMs > 0 {
 		hooks.watchdog = time.Duration(c.WatchdogMs) * time.Millisecond
@@ -248,13 +260,17 @@ func e2eExec(c *e2eCase, work string, tr *vTrace, logLines bool) (*e2eResult, ma
 							pausedNow = false
 							resumedAt = time.Now()
 							pauseMu.Unlock()
-							tr.Emit(map[string]any{"e": "resume", "run": c.ID}, func() { t.resumeTransferringFiles() })
+							if !emitLive(map[string]any{"e": "resume", "run": c.ID}, func() { t.resumeTransferringFiles() }) {
+								return
+							}
 							if i+1 < cycles {
 								time.Sleep(30 * time.Millisecond)
 								pauseMu.Lock()
 								pausedNow = true
 								pauseMu.Unlock()
-								tr.Emit(map[string]any{"e": "pause", "run": c.ID, "g": -1}, func() { t.pauseTransferringFiles() })
+								if !emitLive(map[string]any{"e": "pause", "run": c.ID, "g": -1}, func() { t.pauseTransferringFiles() }) {
+									return
+								}
 							}
 						}
 					}()
@@ -281,6 +297,9 @@ func e2eExec(c *e2eCase, work string, tr *vTrace, logLines bool) (*e2eResult, ma
 	runStart := time.Now()
 	vm0 := e2eVmPeakMB()
 	res := e2eRun(o, w, hooks)
+	overMu.Lock()
+	over = true
+	overMu.Unlock()
 	if len(res.Hung) > 0 {
 		e2eTainted = true
 	}
@@ -412,6 +431,24 @@ func e2eExec(c *e2eCase, work string, tr *vTrace, logLines bool) (*e2eResult, ma
 			npresent++
 		}
 	}
+	// what each role's success is a success for: the sender every entry it was given, the receiver
+	// the entries it lists as saved / received (all of them when no list could be read)
+	claims, claimSame := len(tops), allSame && len(entries) > 0
+	if res.ShownOK {
+		claims = len(res.Shown)
+		switch {
+		case claims > len(tops):
+			claimSame = false
+		case claims == 0:
+			claimSame = true
+		default:
+			_, claimSame, _ = e2eCompare(tops[:claims], res.Shown[:claims], dst, pre)
+		}
+	}
+	cclaims, sclaims := len(tops), claims
+	if !c.Opts.Upload {
+		cclaims, sclaims = claims, len(tops)
+	}
 	cres, sres := "fail", "fail"
 	if res.ClientOK {
 		cres = "ok"
@@ -420,12 +457,12 @@ func e2eExec(c *e2eCase, work string, tr *vTrace, logLines bool) (*e2eResult, ma
 		sres = "ok"
 	}
 	tr.Emit(map[string]any{"e": "ret", "run": c.ID, "role": "C", "res": cres, "hung": containsString(res.Hung, "client"),
-		"ms": res.ClientMs, "since": since(res.ClientEnd), "told": res.FailLines["client"] != "", "msg": res.ClientErr}, nil)
+		"ms": res.ClientMs, "since": since(res.ClientEnd), "told": res.FailLines["client"] != "", "msg": res.ClientErr, "claims": cclaims}, nil)
 	tr.Emit(map[string]any{"e": "ret", "run": c.ID, "role": "V", "res": sres, "hung": containsString(res.Hung, "server"),
-		"ms": res.ServerMs, "since": since(res.ServerEnd), "told": res.FailLines["server"] != "", "msg": res.ServerErr}, nil)
+		"ms": res.ServerMs, "since": since(res.ServerEnd), "told": res.FailLines["server"] != "", "msg": res.ServerErr, "claims": sclaims}, nil)
 	fs := map[string]any{"e": "fs", "run": c.ID, "n": len(entries), "nsame": nsame, "allsame": allSame && len(entries) > 0,
 		"extra": len(extra), "touched": len(touched), "shown": res.ShownOK, "nshown": len(names), "ntops": len(tops),
-		"npresent": npresent, "keptok": keptok, "verified": verified,
+		"npresent": npresent, "keptok": keptok, "verified": verified, "claimsame": claimSame,
 		"mutapplied": mutApplied, "vmgrow": e2eVmPeakMB() - vm0,
 		"pdata": pData, "pkeep": pKeep, "dataafter": dataAfter, "pausems": e2ePauseMs(&c.Plan)}
 	tr.Emit(fs, nil)
@@ -678,3 +715,43 @@ func e2eDropEnv(env []string, key string) []string {
 
 // e2eTainted: a role of an earlier run in this process did not return and may still be running.
 var e2eTainted bool
+
+func init() { vRegister("e2e_replay", e2eReplay) }
+
+// e2eReplay re-executes saved cases (params.cases = path of a json list of e2eCase) and writes
+// the recorded events; used by ./check <id> --replay.
+func e2eReplay(d *vCtx) error {
+	var cases []*e2eCase
+	b, err := os.ReadFile(d.pStr("cases", ""))
+	if err != nil {
+		return err
+	}
+	if err := json.Unmarshal(b, &cases); err != nil {
+		return err
+	}
+	base := e2eShmBase()
+	defer os.RemoveAll(base)
+	if err := e2eCaptureStdout(d.out); err != nil {
+		return err
+	}
+	tr, err := vNewTrace(d.path("obs.ndjson"))
+	if err != nil {
+		return err
+	}
+	var details []map[string]any
+	for _, c := range cases {
+		_, detail, err := e2eExec(c, e2eWorkDir(base, c.ID), tr, true)
+		if err != nil {
+			return err
+		}
+		detail["case"] = c
+		details = append(details, detail)
+		fmt.Fprintf(os.Stderr, "replayed case %d: %v\n", c.ID, detail)
+	}
+	d.set("runs", len(cases))
+	if err := tr.Close(); err != nil {
+		return err
+	}
+	return vWriteJSON(filepath.Join(d.out, "details.json"), details)
+}
+
